@@ -59,6 +59,10 @@ type Server struct {
 	Name      string // seam class, e.g. "etcd" or "pstore"
 
 	// statistics
+	// LeaseCreator records which client handle (seam class) granted each lease.
+	LeaseCreator map[int64]string
+	// LeaseEnd records when each lease ended (revoked or expired), for timing oracles.
+	LeaseEnd     map[int64]time.Time
 	LeaseExpired int
 	LeaseRevoked int
 	Txns         int
@@ -545,6 +549,10 @@ func (s *Server) revokeLocked(l *lease) {
 		l.timer.Stop()
 	}
 	delete(s.leases, l.id)
+	if s.LeaseEnd == nil {
+		s.LeaseEnd = map[int64]time.Time{}
+	}
+	s.LeaseEnd[l.id] = time.Now()
 	if len(l.keys) == 0 {
 		return
 	}
@@ -641,3 +649,23 @@ func (s *Server) Rev() int64 {
 }
 
 var _ = context.Background
+
+// FirstCreated returns the key under prefix with the smallest create revision and its lease.
+func (s *Server) FirstCreated(prefix string) (string, int64) {
+	s.mu.Lock()
+	defer s.mu.Unlock()
+	best, lease, rev := "", int64(0), int64(0)
+	for k, v := range s.kvs {
+		if len(k) >= len(prefix) && k[:len(prefix)] == prefix && (best == "" || v.create < rev) {
+			best, lease, rev = k, v.lease, v.create
+		}
+	}
+	return best, lease
+}
+
+// LeaseEndOf returns when a lease ended (zero time if it is still live or unknown).
+func (s *Server) LeaseEndOf(id int64) time.Time {
+	s.mu.Lock()
+	defer s.mu.Unlock()
+	return s.LeaseEnd[id]
+}
